@@ -409,6 +409,8 @@ func (ch *Chain) Exec(e M) Outcome {
 			_ = f.Perm.SetAdmin(ch.Ctx, p, id, c.AddrBytes(absx.Str(e["who"])))
 		}
 		return Outcome{OK: true, Resp: M{"ch": absx.Str(e["ch"])}}
+	case "Query":
+		return ch.query(e)
 	case "ExportImport":
 		same, err := ch.ExportImport()
 		if err != nil {
@@ -720,4 +722,76 @@ func ApplyMeta(cfg *RunCfg, c *Conc, meta M) {
 			c.Trees[id] = leaves
 		}
 	}
+}
+
+// query runs a gRPC query of the real Querier and renders its answer in the abstract vocabulary.
+func (ch *Chain) query(e M) Outcome {
+	c := ch.C
+	q := ch.F.Querier
+	ctx := ch.Ctx
+	b := func() uint64 { return uint64(absx.Int(e["b"])) }
+	page := func() *query.PageRequest {
+		return &query.PageRequest{Offset: uint64(absx.Int(e["offset"])), Limit: uint64(absx.Int(e["limit"])), Reverse: absx.Bool(e["reverse"]), CountTotal: true}
+	}
+	fail := func(err error) Outcome { return Outcome{OK: false, Err: err.Error()} }
+	switch absx.Str(e["q"]) {
+	case "Bridge":
+		r, err := q.Bridge(ctx, &ophosttypes.QueryBridgeRequest{BridgeId: b()})
+		if err != nil {
+			return fail(err)
+		}
+		return Outcome{OK: true, Resp: M{"proposer": c.AddrName(r.BridgeConfig.Proposer), "challenger": c.AddrName(r.BridgeConfig.Challenger),
+			"period": ticks(r.BridgeConfig.FinalizationPeriod), "addr": c.AddrName(r.BridgeAddr)}}
+	case "Bridges":
+		r, err := q.Bridges(ctx, &ophosttypes.QueryBridgesRequest{Pagination: page()})
+		if err != nil {
+			return fail(err)
+		}
+		ids := []any{}
+		for _, x := range r.Bridges {
+			ids = append(ids, int64(x.BridgeId))
+		}
+		return Outcome{OK: true, Resp: M{"ids": ids, "total": int64(r.Pagination.Total)}}
+	case "NextL1Sequence":
+		r, err := q.NextL1Sequence(ctx, &ophosttypes.QueryNextL1SequenceRequest{BridgeId: b()})
+		if err != nil {
+			return fail(err)
+		}
+		return Outcome{OK: true, Resp: M{"seq": int64(r.NextL1Sequence)}}
+	case "LastFinalizedOutput":
+		r, err := q.LastFinalizedOutput(ctx, &ophosttypes.QueryLastFinalizedOutputRequest{BridgeId: b()})
+		if err != nil {
+			return fail(err)
+		}
+		return Outcome{OK: true, Resp: M{"idx": int64(r.OutputIndex), "l2bn": int64(r.OutputProposal.L2BlockNumber)}}
+	case "OutputProposal":
+		r, err := q.OutputProposal(ctx, &ophosttypes.QueryOutputProposalRequest{BridgeId: b(), OutputIndex: uint64(absx.Int(e["idx"]))})
+		if err != nil {
+			return fail(err)
+		}
+		return Outcome{OK: true, Resp: M{"l2bn": int64(r.OutputProposal.L2BlockNumber), "t": TimeTick(r.OutputProposal.L1BlockTime), "root": c.RootName(r.OutputProposal.OutputRoot)}}
+	case "OutputProposals":
+		r, err := q.OutputProposals(ctx, &ophosttypes.QueryOutputProposalsRequest{BridgeId: b(), Pagination: page()})
+		if err != nil {
+			return fail(err)
+		}
+		idxs := []any{}
+		for _, x := range r.OutputProposals {
+			idxs = append(idxs, int64(x.OutputIndex))
+		}
+		return Outcome{OK: true, Resp: M{"idxs": idxs, "total": int64(r.Pagination.Total)}}
+	case "BatchInfos":
+		r, err := q.BatchInfos(ctx, &ophosttypes.QueryBatchInfosRequest{BridgeId: b(), Pagination: page()})
+		if err != nil {
+			return fail(err)
+		}
+		return Outcome{OK: true, Resp: M{"n": int64(len(r.BatchInfos)), "total": int64(r.Pagination.Total)}}
+	case "TokenPairByL1Denom":
+		r, err := q.TokenPairByL1Denom(ctx, &ophosttypes.QueryTokenPairByL1DenomRequest{BridgeId: b(), L1Denom: c.Denom(absx.Str(e["denom"]))})
+		if err != nil {
+			return fail(err)
+		}
+		return Outcome{OK: true, Resp: M{"l2denom": c.DenomName(r.TokenPair.L2Denom)}}
+	}
+	panic("unknown query " + absx.Str(e["q"]))
 }
